@@ -391,6 +391,7 @@ func (e *v2Env) openConversation(c *peerConn, kind string) ([]byte, uint32) {
 func v2Worker(args []string) int {
 	dir, withDID := args[0], args[1] == "1"
 	start, _ := strconv.Atoi(args[2])
+	single := len(args) > 3 && args[3] == "single" // evaluate only input `start` (reproduction of a stuck handler on an idle worker)
 	logrus.SetLevel(logrus.ErrorLevel)
 	logrus.SetOutput(io.Discard) // rejected messages are observed through the hook; the output is kept free for the crash report of the runtime
 	var base baseDAG
@@ -403,7 +404,7 @@ func v2Worker(args []string) int {
 	logrus.AddHook(hook)
 	led := worker.OpenLedger(filepath.Join(dir, "ledger"))
 	lines := worker.ReadLedger(filepath.Join(dir, "inputs.jsonl"))
-	envN := 0
+	envN, stuck := 0, 0
 	e := openV2Env(dir, base, withDID, envN)
 	for _, ln := range lines {
 		var rec v2Record
@@ -411,7 +412,7 @@ func v2Worker(args []string) int {
 			fmt.Println("worker: bad record", err)
 			return 3
 		}
-		if rec.I < start {
+		if rec.I < start || (single && rec.I > start) {
 			continue
 		}
 		led.Log("begin %d", rec.I)
@@ -447,6 +448,7 @@ func v2Worker(args []string) int {
 		}
 		if !quiet {
 			verdict = "T"
+			stuck++
 		}
 		if !convOK {
 			detail = "[conversation not opened] " + detail
@@ -457,6 +459,11 @@ func v2Worker(args []string) int {
 		}
 		led.Log("end %d %s %s | %s", rec.I, verdict, changed, strings.ReplaceAll(detail, "\n", " "))
 		e.dropPeer(c)
+		if stuck >= 3 {
+			// handlers that never finish keep spinning in this process: stop here, the parent reports the rest as not evaluated
+			led.Log("stuck")
+			return 4
+		}
 		if after != e.baseDig {
 			// every input is evaluated against the same base state. The used environment is abandoned, not shut down: stopping the protocol
 			// cancels its context while notifier goroutines of the just-added transaction may sit in the store's lock-with-cancel (can deadlock)
@@ -823,7 +830,7 @@ func buildV2Inputs(h *harness) (baseDAG, []v2Record) {
 	n = 0
 	ibltEntry(h).gen(h, &entry{name: "v2.iblt"}, func(in input) {
 		n++
-		if n%h.r.Pick(14, 1) != 0 || len(in.data) > 3<<20 {
+		if n%h.r.Pick(14, 27) != 0 || len(in.data) > 3<<20 { // an IBLT is 45 kB: ~60 / ~1500 of them travel to the workers
 			return
 		}
 		env := proto.Clone(setSeed.env).(*v2.Envelope)
@@ -875,6 +882,26 @@ func v2Config(h *harness, base baseDAG, recs []v2Record, withDID bool) {
 		_ = os.WriteFile(filepath.Join(dir, "inputs.jsonl"), []byte(sb.String()), 0o644)
 		start, crashes := 0, 0
 		const maxCrashes = 30
+		// repro handles input i alone in a fresh worker and says whether its handler got stuck again
+		repro := func(i int) bool {
+			rdir, err := os.MkdirTemp("", "c19-v2-repro-")
+			if err != nil {
+				return false
+			}
+			defer os.RemoveAll(rdir)
+			_ = os.WriteFile(filepath.Join(rdir, "base.json"), bj, 0o644)
+			_ = os.WriteFile(filepath.Join(rdir, "inputs.jsonl"), []byte(sb.String()), 0o644)
+			res := worker.Run("c19v2", []string{rdir, arg, strconv.Itoa(i), "single"}, 3*time.Minute)
+			if res.TimedOut {
+				return true
+			}
+			for _, ln := range worker.ReadLedger(filepath.Join(rdir, "ledger")) {
+				if strings.HasPrefix(ln, fmt.Sprintf("end %d T", i)) {
+					return true
+				}
+			}
+			return false
+		}
 		for start < len(recs) {
 			res := worker.Run("c19v2", []string{dir, arg, strconv.Itoa(start)}, time.Duration(h.r.Pick(4, 25))*time.Minute)
 			lines := worker.ReadLedger(filepath.Join(dir, "ledger"))
@@ -885,10 +912,13 @@ func v2Config(h *harness, base baseDAG, recs []v2Record, withDID bool) {
 				switch {
 				case ln == "done":
 					done = true
+				case ln == "stuck":
+					done = true
+					h.r.Inconclusive(fmt.Sprintf("v2%s: three messages whose handlers did not finish; the remaining inputs were not evaluated", suffix))
 				case strings.HasPrefix(ln, "begin "):
 					open, _ = strconv.Atoi(ln[6:])
 				case strings.HasPrefix(ln, "end "):
-					h.v2Result(recs, suffix, ln)
+					h.v2Result(recs, suffix, ln, repro)
 					lastEnd, open = open, -1
 				}
 			}
@@ -959,7 +989,7 @@ func tailStr(s string, n int) string {
 }
 
 // v2Result evaluates one "end" ledger line: end <i> <A|R|D|T> <same|changed ...> | detail
-func (h *harness) v2Result(recs []v2Record, suffix string, ln string) {
+func (h *harness) v2Result(recs []v2Record, suffix string, ln string, repro func(i int) bool) {
 	parts := strings.SplitN(ln, " ", 4)
 	if len(parts) < 3 {
 		return
@@ -993,7 +1023,36 @@ func (h *harness) v2Result(recs []v2Record, suffix string, ln string) {
 	st.mu.Unlock()
 	h.r.Case(name+"|"+strings.Join(rec.Ops, "+"), len(rec.Ops) > 0)
 	if parts[2] == "T" {
-		h.r.Inconclusive(fmt.Sprintf("%s: handlers did not become quiescent within %s (mutations %v)", name, watchdog, rec.Ops))
+		h.r.Count("watchdog_expiries", 1)
+		cls := input{ops: rec.Ops}.class()
+		key := "C19/hang/" + name + "/" + cls
+		h.mu.Lock()
+		known := h.hangs[key]
+		h.hangs[key] = true
+		h.mu.Unlock()
+		if known || repro == nil {
+			return
+		}
+		// reproduce alone: a fresh worker process that handles only this message, three times
+		again := 0
+		for k := 0; k < 3; k++ {
+			if repro(rec.I) {
+				again++
+			} else {
+				break
+			}
+		}
+		if again < 3 {
+			h.r.Inconclusive(fmt.Sprintf("%s: handlers did not become quiescent within %s once, but did when the message was handled alone (mutations %v)", name, watchdog, rec.Ops))
+			return
+		}
+		wire, _ := base64.StdEncoding.DecodeString(rec.Env)
+		path := h.persist(&entry{name: name}, input{data: wire}, "hang-"+cls)
+		st.mu.Lock()
+		st.Hangs++
+		st.mu.Unlock()
+		h.r.Violation(key, fmt.Sprintf("%s: the handler of the message did not finish within %s, reproduced 3x in a worker of its own; input class %s, mutations %v", name, watchdog, cls, rec.Ops),
+			map[string]any{"entry": name, "mutations": rec.Ops, "conversation": rec.Conv, "seed_envelope": rec.Seed, "envelope_wire_base64": rec.Env, "input_file": path})
 		return
 	}
 	if (parts[2] == "R" || parts[2] == "D") && strings.HasPrefix(rest, "changed") {
